@@ -8,12 +8,17 @@ import (
 	"net/http"
 	"net/url"
 	"strconv"
+	"strings"
 
 	"github.com/google/martian/v3"
+	_ "github.com/google/martian/v3/cookie"
 	_ "github.com/google/martian/v3/fifo"
 	_ "github.com/google/martian/v3/header"
+	_ "github.com/google/martian/v3/martianurl"
+	_ "github.com/google/martian/v3/method"
 	"github.com/google/martian/v3/parse"
 	_ "github.com/google/martian/v3/priority"
+	_ "github.com/google/martian/v3/querystring"
 	"github.com/google/martian/v3/zzverif/vf"
 )
 
@@ -278,6 +283,73 @@ func VerifC12Priority() {
 		return
 	}
 	run(r, root, 0, "priority")
+	vf.Reach("done")
+}
+
+// VerifC12Filters: the other registered filters (method, query string, cookie,
+// URL): the filter applies its modifier when its condition holds for the message
+// and its else-branch otherwise, on requests and on responses.
+func VerifC12Filters() {
+	leafT := `{"header.Append": {"name": "X-Trace", "value": "T"}}`
+	leafF := `{"header.Append": {"name": "X-Trace", "value": "F"}}`
+	kind := vf.Choice("filter", 4)
+	isReq := vf.Choice("message-kind", 2) == 0
+	m := newMessage(0)
+	var js string
+	cond := false
+	switch kind {
+	case 0:
+		js = `{"method.Filter": {"method": "post", "modifier": ` + leafT + `, "else": ` + leafF + `}}`
+		m.req.Method = []string{"GET", "POST", "post", "POSTS"}[vf.Choice("method", 4)]
+		cond = m.req.Method == "POST" || m.req.Method == "post"
+	case 1:
+		js = `{"querystring.Filter": {"name": "k", "value": "1", "modifier": ` + leafT + `, "else": ` + leafF + `}}`
+		qs := []string{"j=1", "k=", "k=1", "k=0&k=1", ""}
+		q := vf.Choice("query", len(qs))
+		m.req.URL.RawQuery = qs[q]
+		cond = q == 2 || q == 3
+	case 2:
+		js = `{"cookie.Filter": {"name": "c", "value": "1", "modifier": ` + leafT + `, "else": ` + leafF + `}}`
+		cs := []string{"", "c=1", "c=2", "d=1; c=1"}
+		c := vf.Choice("cookie", len(cs))
+		if cs[c] != "" {
+			if isReq {
+				m.req.Header["Cookie"] = []string{cs[c]}
+			} else {
+				for _, one := range strings.Split(cs[c], "; ") {
+					m.res.Header["Set-Cookie"] = append(m.res.Header["Set-Cookie"], one)
+				}
+			}
+		}
+		cond = c == 1 || c == 3
+	default:
+		js = `{"url.Filter": {"host": "example.com", "path": "/p", "modifier": ` + leafT + `, "else": ` + leafF + `}}`
+		us := []struct {
+			host, path string
+			match      bool
+		}{{"example.com", "/p", true}, {"example.com", "/q", false}, {"other.example", "/p", false}, {"example.com", "/p/", false}}
+		u := us[vf.Choice("url", len(us))]
+		m.req.URL.Host, m.req.URL.Path, m.req.Host = u.host, u.path, u.host
+		cond = u.match
+	}
+	r, err := parse.FromJSON([]byte(js))
+	vf.Assert(err == nil, "valid-configuration-accepted")
+	if err != nil {
+		return
+	}
+	var got []string
+	if isReq {
+		vf.Assert(r.RequestModifier().ModifyRequest(m.req) == nil, "filter-reports-no-error")
+		got = m.req.Header["X-Trace"]
+	} else {
+		vf.Assert(r.ResponseModifier().ModifyResponse(m.res) == nil, "filter-reports-no-error")
+		got = m.res.Header["X-Trace"]
+	}
+	want := "F"
+	if cond {
+		want = "T"
+	}
+	vf.Assert(len(got) == 1 && got[0] == want, "filter-applies-modifier-iff-condition-holds-else-branch-otherwise")
 	vf.Reach("done")
 }
 
